@@ -41,3 +41,14 @@ PROPS['C06']={
    {'name':'expiry_top','module':'harness.C06','cls':'Expiry','quick':{},'thorough':{},'validate':{'quick':2,'thorough':2}},
    {'name':'expiry_sub','module':'harness.C06','cls':'Expiry','quick':{'sub':True},'thorough':{'sub':True},'validate':{'quick':3,'thorough':3}},
  ]}
+
+PROPS['C07']={
+ 'bounds_statement':'in_toto_verify from MIR: one step, any u32 threshold, 2 (quick) / 3 (thorough) authorized links whose materials/products are arbitrary subsets of a small path universe with free digest bytes, free signature validity, every hash-map order.',
+ 'assumptions':PIPE_ASSUME,
+ 'obligations':[{'name':'agreement','module':'harness.C07','cls':'Agreement','quick':{'nlinks':2},'thorough':{'nlinks':3}}]}
+
+PROPS['C13']={
+ 'bounds_statement':'self-composition of in_toto_verify from MIR (reference run in insertion order vs. every permutation of every hash map) over 1-2 steps with 2-3 links per step that may differ, any u32 thresholds, free signature validity.',
+ 'assumptions':PIPE_ASSUME+['directory enumeration order is not varied (glob returns paths sorted; stated, not checked)'],
+ 'obligations':[{'name':'determinism','module':'harness.C13','cls':'Determinism','quick':{'nlinks':2},'thorough':{'nlinks':3}},
+                {'name':'determinism_two_steps','module':'harness.C13','cls':'Determinism','tier_only':'thorough','quick':{},'thorough':{'nlinks':2,'two_steps':True}}]}
